@@ -303,6 +303,10 @@ def _run(pid, args, seed, scratch, t0):
         if r:
             reasons.append(r)
 
+    for case in flaky[:5]:
+        # kept for debugging the machinery: a violation seen in a worker that did not
+        # reproduce alone in a fresh process (the run is inconclusive, never a violation)
+        write_replay(pid, case, {"flaky": True}, tier, seed)
     replay_paths = []
     for case, res in confirmed[:10]:
         replay_paths.append(write_replay(pid, case, res, tier, seed))
